@@ -45,7 +45,7 @@ def rvq_cases(ctx, rng, scale, cases, meta, failures, dist):
         mode = ['eval', 'train', 'frozen'][(ci // 2) % 3]
         shared = (ci % 5 == 1)
         cosine = (ci % 7 == 2) and not shared
-        implicit = (ci % 9 == 4) and not shared and nq > 1
+        implicit = (ci % 9 == 4) and not shared and nq > 1 and not cosine   # the library rejects cosine + implicit (learnable) codebooks
         proj = (ci % 4 == 3)
         masked = (ci % 6 == 5)
         d = rng.choice([2, 3])
